@@ -440,6 +440,35 @@ namespace
       return handle_encoding_data (attr, encoding);
   }
 
+  // Attributes whose value is a named constant, a line or a column
+  // number, whatever constant form it is stored in.
+  bool
+  attr_has_own_domain (int code)
+  {
+    switch (code)
+      {
+      case DW_AT_language:
+      case DW_AT_inline:
+      case DW_AT_encoding:
+      case DW_AT_accessibility:
+      case DW_AT_visibility:
+      case DW_AT_virtuality:
+      case DW_AT_identifier_case:
+      case DW_AT_calling_convention:
+      case DW_AT_ordering:
+      case DW_AT_decimal_sign:
+      case DW_AT_address_class:
+      case DW_AT_endianity:
+      case DW_AT_defaulted:
+      case DW_AT_decl_line:
+      case DW_AT_call_line:
+      case DW_AT_decl_column:
+      case DW_AT_call_column:
+	return true;
+      }
+    return false;
+  }
+
   std::unique_ptr <value_producer <value>>
   handle_at_dependent_value (Dwarf_Attribute attr, value_die const &vd,
 			     std::shared_ptr <dwfl_context> dwctx)
@@ -837,9 +866,13 @@ at_value (std::shared_ptr <dwfl_context> dwctx,
       }
 
     case DW_FORM_sdata:
+      if (attr_has_own_domain (dwarf_whatattr (&attr)))
+	return handle_at_dependent_value (attr, vd, dwctx);
       return atval_signed (attr);
 
     case DW_FORM_udata:
+      if (attr_has_own_domain (dwarf_whatattr (&attr)))
+	return handle_at_dependent_value (attr, vd, dwctx);
       return atval_unsigned (attr);
 
     case DW_FORM_addr:
